@@ -362,3 +362,8 @@ def run(ck):
     # type and precedence (public, user-settable, it breaks ties) - is dumped and restored (engine shared with C09)
     from .c09 import rule_agreement
     ck.attempt(rule_agreement, classes=("EventQueue", "Event", "EVEvent", "PluginEvent", "UnplugEvent", "RecomputeEvent"), rid="C11.R6s", rid2="C11.R6s")
+    # ... and the restore protocol itself is followed by the queue and event classes: accumulators are passed on, rebound and returned,
+    # the three protocol dictionaries are never passed in each other's place (rules of C09; they report under their C09 ids)
+    from .c09 import rule_threading, rule_registry_binding
+    ck.attempt(rule_threading)
+    ck.attempt(rule_registry_binding)
